@@ -70,7 +70,7 @@ extern Sink * g_sink;
 struct Counters
 {
 	uint64_t plans, ops, invocations, callbackCalls, enqueued, enqueuedDuringProcessing, dispatched, predicateCalls, declined, slotRecycled, poolOps, dirtyConstructions, shapeCounts[S_COUNT], kindCounts[NKIND],
-		predCounts[NPRED], processIfForeignUntouched, faultRuns, faultsInjected, faultsByKind[F_KINDS], opsFailedByFault;
+		predCounts[NPRED], processIfForeignUntouched, defaultHandleRemoves, faultRuns, faultsInjected, faultsByKind[F_KINDS], opsFailedByFault;
 	uint64_t perVariant[V_COUNT];
 };
 extern Counters counters;
@@ -399,7 +399,19 @@ struct Interp : Sink
 			if(slot < 0 || slot >= MAXSLOT) slot = MAXSLOT - 1;
 			if(slotUnusable[slot]) return;
 			if(slotUsed[slot] && slotObj[slot] >= 0 && !(slotObj[slot] == o && slotKey[slot] == k)) return;
-			if(!slotUsed[slot]) return; // a default-constructed heterogeneous handle has no defined prototype index: not generated
+			if(!slotUsed[slot]) {
+				// a DEFAULT-INITIALISED handle in storage that held arbitrary bytes: it is an empty handle, remove must answer false
+				// whatever the storage held before (its prototype index must not be read from uninitialised memory)
+				seq::DirtyStorage<Handle> hs;
+				hs.fill(0, fillRng);
+				Handle * hp = new (hs.ptr()) Handle;
+				bool got;
+				{ FaultArm arm; got = B::remove(real(o), k, *hp); }
+				hp->~Handle();
+				++counters.defaultHandleRemoves;
+				if(got) viol.raise("remove-result", "remove through a default-initialised handle returned true");
+				break;
+			}
 			const bool expected = slotObj[slot] == o && slotKey[slot] == k;
 			bool got;
 			{ FaultArm arm; got = B::remove(real(o), k, handles[slot]); }
@@ -1194,7 +1206,7 @@ void statsJson(std::string & out)
 	const sh::Counters & c = sh::counters;
 	std::ostringstream o;
 	o << ",\"probes\":{\"ops\":" << c.ops << ",\"invocations\":" << c.invocations << ",\"callback_calls\":" << c.callbackCalls << ",\"events_enqueued\":" << c.enqueued << ",\"events_enqueued_by_listeners_during_processing\":" << c.enqueuedDuringProcessing << ",\"events_dispatched\":" << c.dispatched
-	  << ",\"predicate_calls\":" << c.predicateCalls << ",\"events_declined\":" << c.declined << ",\"processIf_foreign_events_left_untouched\":" << c.processIfForeignUntouched
+	  << ",\"predicate_calls\":" << c.predicateCalls << ",\"events_declined\":" << c.declined << ",\"processIf_foreign_events_left_untouched\":" << c.processIfForeignUntouched << ",\"removes_through_default_initialised_handles\":" << c.defaultHandleRemoves
 	  << ",\"copy_move_swap_destroy_ops\":" << c.poolOps << ",\"constructions_in_dirty_storage\":" << c.dirtyConstructions << ",\"shape_counts\":[";
 	for(int i = 0; i < sh::S_COUNT; ++i) o << (i ? "," : "") << c.shapeCounts[i];
 	o << "],\"callback_kind_counts\":[";
